@@ -52,6 +52,7 @@ LEVEL = {'C18': 'model_checking'}
 TRACE_MODULE = 'VarzAbsTrace'
 TRACE_CFG = 'VarzAbsTrace.cfg'
 TRACE_CHUNK = 600
+CASE_TIMEOUT = 900      # real-time guard only; a few hundred client lifetimes with gc.collect() are slow on a loaded machine
 ASSUMPTIONS = [
   'samples, increments and gauge values are integer-valued; reported totals and percentiles are compared after '
   'the monotone map x -> round(1000 x), so float noise of the interpolation never decides a verdict',
@@ -859,7 +860,7 @@ def cases(prop, tier, seed):
   rng = random.Random(1000003 * int(seed) + 18)
   out = _systematic() + _interleaved() + _boundary_systematic() + _family_systematic()
   n_api, n_e2e, n_timed, n_sock, n_lib = (270, 110, 120, 60, 30) if tier == 'quick' else (8000, 1500, 4000, 1500, 1200)
-  n_conc, n_churn, lives = (8, 3, 150) if tier == 'quick' else (80, 20, 300)
+  n_conc, n_churn, lives = (8, 3, 100) if tier == 'quick' else (80, 20, 300)
   for _ in range(n_api):
     out.append(_gen_api(rng))
   for _ in range(n_e2e):
@@ -1102,6 +1103,8 @@ def _run_e2e(script):
   if 'churn' in script:
     # many short-lived clients of differently named services behind equal endpoints: created, used, closed, dropped
     import gc
+    if hasattr(gc, 'freeze'):
+      gc.freeze()      # the forked child inherits the runner's heap: keep it out of every gc.collect() below
     pending = 0
     for life in script['churn']:
       name = 'svc%d' % life['svc']
